@@ -187,6 +187,23 @@ CHECKS["C15"] = dict(
     runs=[run("hist_c15_a1", "hist.cpp", "asan", args=["--mode", "c15", "--slots", "2", "--bufs", "1", "--dims", "2.3", "--align", "1"], tiers=("quick", "thorough")),
           run("hist_c15_a0_d4", "hist.cpp", "asan", args=["--mode", "c15", "--slots", "2", "--bufs", "1", "--dims", "2.3", "--align", "0", "--depth", "4"], tiers=("quick",)),
           run("hist_c15_a0", "hist.cpp", "asan", args=["--mode", "c15", "--slots", "2", "--bufs", "1", "--dims", "2.3", "--align", "0", "--deadline", "3000"], tiers=("thorough",), timeout={"thorough": 5000}),
+          run("c15s", "c15s.cpp", "asan", shards=16, args=["--depth", "3"], tiers=("quick",), env={"ASAN_OPTIONS": "detect_leaks=1:leak_check_at_exit=0:allocator_may_return_null=1"}),
+          run("c15s_d4", "c15s.cpp", "asan", shards=16, args=["--depth", "4", "--deadline", "3000"], tiers=("thorough",), env={"ASAN_OPTIONS": "detect_leaks=1:leak_check_at_exit=0:allocator_may_return_null=1"}),
           run("hist_c15_3slots", "hist.cpp", "asan", args=["--mode", "c15", "--slots", "3", "--bufs", "2", "--dims", "2.3", "--align", "1", "--deadline", "3000"], tiers=("thorough",), timeout={"thorough": 5000})],
+)
+
+CHECKS["C16"] = dict(
+    level=FE, engine="history-explorer",
+    technique="exhaustive allocation-fault enumeration: for every reachable abstract pool state (history search to closure) and every operation, fail exactly the k-th allocation for every k the operation performs",
+    rule=HIST_NOTE + " plus the wide alphabet of C15 (conversions, factories, GetComponents, rotations, ...). For every transition (abstract pre-state, operation) of the search a dry run counts the N allocation points "
+         "(operator new[] and scalar operator new reached from library code), then N runs fail exactly the k-th with std::bad_alloc. Oracle: bad_alloc propagates; every vector other than the assignment target is bit-identical; "
+         "fresh allocations never receive a block some vector still references; every vector (including the target) can be reassigned and destroyed; ledger: no double / foreign delete[], nothing live after teardown. "
+         "evaluations = injected runs, distinct = distinct (abstract pre-state, operation, k)",
+    assumptions=["GSL's malloc failures are outside the statement (bad_alloc only)", "allocation points that do not occur on a run because library-internal thread-local scratch is already warm are skipped",
+                 "2 slots + 1 buffer to closure (quick), 3 slots + 2 buffers (thorough)"],
+    runs=[run("hist_c16_a1", "hist.cpp", "asan", args=["--mode", "c16", "--slots", "2", "--bufs", "1", "--dims", "2.3", "--align", "1"], tiers=("quick", "thorough")),
+          run("hist_c16_a0_d3", "hist.cpp", "asan", args=["--mode", "c16", "--slots", "2", "--bufs", "1", "--dims", "2.3", "--align", "0", "--depth", "3"], tiers=("quick",)),
+          run("hist_c16_a0", "hist.cpp", "asan", args=["--mode", "c16", "--slots", "2", "--bufs", "1", "--dims", "2.3", "--align", "0", "--deadline", "3000"], tiers=("thorough",), timeout={"thorough": 5000}),
+          run("hist_c16_3slots", "hist.cpp", "asan", args=["--mode", "c16", "--slots", "3", "--bufs", "2", "--dims", "2.3", "--align", "1", "--deadline", "3000"], tiers=("thorough",), timeout={"thorough": 5000})],
 )
 NOT_APPLICABLE = {}
